@@ -75,6 +75,7 @@ type WorkerOpts struct {
 	Stall   time.Duration // kill a worker that produced no result for this long (default 20 s)
 	Env     []string      // extra environment
 	OneProc bool          // run all ops in ONE process, in order (histories)
+	Fresh   bool          // run every op in its own fresh process (pristine pools)
 }
 
 // RunOps executes ops in isolated worker processes and returns observations by op ID order.
@@ -97,6 +98,31 @@ func RunOps(ops []Op, wo WorkerOpts) ([]Obs, error) {
 	}
 	if wo.OneProc {
 		wo.Shards = 1
+	}
+	if wo.Fresh {
+		var mu sync.Mutex
+		var all []Obs
+		var firstErr error
+		var wg sync.WaitGroup
+		sem := make(chan struct{}, wo.Shards)
+		for i := range ops {
+			wg.Add(1)
+			sem <- struct{}{}
+			go func(one []Op) {
+				defer wg.Done()
+				defer func() { <-sem }()
+				obs, err := runShard(one, wo)
+				mu.Lock()
+				all = append(all, obs...)
+				if err != nil && firstErr == nil {
+					firstErr = err
+				}
+				mu.Unlock()
+			}(ops[i : i+1])
+		}
+		wg.Wait()
+		sort.Slice(all, func(i, j int) bool { return all[i].ID < all[j].ID })
+		return all, firstErr
 	}
 	n := wo.Shards
 	if n > len(ops) {
